@@ -291,6 +291,13 @@ def check_constants(idx: Index, rep: Report) -> None:
     for c in cv:
         facts = [re.sub(r"\s+", " ", resolved_text(cfg, t, cfg.node_of(t))) for t, p in guard_facts(f.node, c) if p]
         ok = any("signed_lower_bound(32) <=" in t and "< signed_upper_bound(32)" in t for t in facts) and any("is_integer()" in t for t in facts)
+        # int -> double conversion yields +0.0 for 0: the float -0.0 (is_integer(), int() == 0) must not take this path
+        allf = [re.sub(r"\s+", " ", resolved_text(cfg, t, cfg.node_of(t))) + ("" if p else " :F") for t, p in guard_facts(f.node, c)]
+        sign_kept = any(re.search(r"copysign\(|signbit|!= 0\b|!= 0\.0|\.hex\(\)|struct\.pack|convert_f64_to_u64|!= -0\.0|> 0|is_negative_zero|str\(|repr\(", t) for t in allf)
+        if ok and not sign_kept:
+            r.fail(f.fq + ":negzero", Finding("C22.R4", f.fq, "negative-zero", f"`li` + `fcvt.d.w` is used for every whole number in the signed 32-bit range (guards: {facts[-2:]}), which includes -0.0 (`(-0.0).is_integer()`, `int(-0.0) == 0`): the conversion of the integer 0 yields +0.0, so `arith.constant -0.0 : f64` loses its sign (1.0 / c is +inf instead of -inf)", f"{LOW}:{c.lineno}"))
+        elif ok:
+            r.ok(f.fq + ":negzero", f"{f.loc} -0.0 is kept off the integer path")
         if ok:
             r.ok(f.fq, f"{f.loc} guarded by is_integer() and signed_lower_bound(32) <= v < signed_upper_bound(32)")
         else:
